@@ -15,17 +15,22 @@ import (
 // and INSERT ... ON DUPLICATE KEY UPDATE that leave the key to the database and meet (or do not meet) a row through
 // the unique value. Refused before running, or run and undone exactly by a global rollback (cases c01-u*).
 func runC01UniqueCollisions(c *Ctx, w *ATWorld) {
-	stmts := []struct{ name, sql string }{
-		{"replace-collides", "REPLACE INTO %s (name, age) VALUES ('dup', 30)"},
-		{"replace-new", "REPLACE INTO %s (name, age) VALUES ('new', 30)"},
-		{"ignore-collides", "INSERT IGNORE INTO %s (name, age) VALUES ('dup', 30)"},
-		{"ignore-new", "INSERT IGNORE INTO %s (name, age) VALUES ('new', 30)"},
-		{"ignore-three-rows-middle-collides", "INSERT IGNORE INTO %s (name, age) VALUES ('a', 1), ('dup', 2), ('c', 3)"},
-		{"replace-two-rows-one-collides", "REPLACE INTO %s (name, age) VALUES ('a', 1), ('dup', 2)"},
-		{"upsert-collides", "INSERT INTO %s (name, age) VALUES ('dup', 30) ON DUPLICATE KEY UPDATE age = 31"},
-		{"upsert-new", "INSERT INTO %s (name, age) VALUES ('new', 30) ON DUPLICATE KEY UPDATE age = 31"},
-		{"upsert-null-key-and-given-key", "INSERT INTO %s (id, name, age) VALUES (NULL, 'x', 1), (2, 'other', 2) ON DUPLICATE KEY UPDATE age = 32"},
-		{"replace-no-unique-value", "REPLACE INTO %s (age) VALUES (30)"},
+	// (route: the statement for the model AT/InsertRoute.lean - its verb, and for every row whether it gives its
+	// key `k`, the value of the other unique index `u`, both, or neither `-`)
+	stmts := []struct{ name, sql, route string }{
+		{"replace-collides", "REPLACE INTO %s (name, age) VALUES ('dup', 30)", "replace u"},
+		{"replace-new", "REPLACE INTO %s (name, age) VALUES ('new', 30)", "replace u"},
+		{"ignore-collides", "INSERT IGNORE INTO %s (name, age) VALUES ('dup', 30)", "ignore u"},
+		{"ignore-new", "INSERT IGNORE INTO %s (name, age) VALUES ('new', 30)", "ignore u"},
+		{"ignore-three-rows-middle-collides", "INSERT IGNORE INTO %s (name, age) VALUES ('a', 1), ('dup', 2), ('c', 3)", "ignore u u u"},
+		{"replace-two-rows-one-collides", "REPLACE INTO %s (name, age) VALUES ('a', 1), ('dup', 2)", "replace u u"},
+		{"upsert-collides", "INSERT INTO %s (name, age) VALUES ('dup', 30) ON DUPLICATE KEY UPDATE age = 31", "onduplicate u"},
+		{"upsert-new", "INSERT INTO %s (name, age) VALUES ('new', 30) ON DUPLICATE KEY UPDATE age = 31", "onduplicate u"},
+		{"upsert-null-key-and-given-key", "INSERT INTO %s (id, name, age) VALUES (NULL, 'x', 1), (2, 'other', 2) ON DUPLICATE KEY UPDATE age = 32", "onduplicate u ku"},
+		{"replace-no-unique-value", "REPLACE INTO %s (age) VALUES (30)", "replace -"},
+		{"replace-one-row-without-unique-value", "REPLACE INTO %s (name, age) VALUES ('a', 1), (NULL, 2)", "replace u -"},
+		{"ignore-key-given", "INSERT IGNORE INTO %s (id, name, age) VALUES (3, 'z', 1)", "ignore ku"},
+		{"upsert-no-unique-value", "INSERT INTO %s (age) VALUES (30) ON DUPLICATE KEY UPDATE age = 31", "onduplicate -"},
 	}
 	for i, s := range stmts {
 		for _, ser := range []string{"json", "protobuf"} {
@@ -72,7 +77,11 @@ func runC01UniqueCollisions(c *Ctx, w *ATWorld) {
 			case !allOK:
 				class = "rollback_reported_failed"
 			}
-			c.Out.Case(cid, "C01", "skip", "skip")
+			obs := "runs"
+			if execErr != nil && mid == before {
+				obs = "refused"
+			}
+			c.Out.Case(cid, "C01", "route "+s.route, obs)
 			c.Out.Oracle(cid, class == "", class, fmt.Sprintf("%s | err=%v before=%s mid=%s final=%s crash=%s", q, execErr, before, mid, final, crash))
 			c.Out.Tag(cid, "nontrivial=1")
 			c.Out.Count("unique-collision." + s.name)
